@@ -12,7 +12,8 @@ TRUSTED = [
 ]
 ASSUMPTIONS = [
     "the recurrence yields a finite strictly increasing sequence (C01 for rrule, C10 for rruleset); infinite rules are outside C12's statement",
-    "replace() has no theorem here (constructor model belongs to C01): oracle-only, by direct comparison on the implementation",
+    "replace(): proved at the argument level (constructor applied to recorded arguments with the named parameters overridden); the recorded "
+    "arguments are read off the real object (query.replace op); their derivation from the constructor model (origArgs) is on C01's branch, not on main",
     "datetimes are mapped to integers (seconds since 2020-01-01) order-isomorphically; comparison of datetimes is CPython's",
 ]
 RULE = ("rules: SECONDLY/MINUTELY/HOURLY/DAILY/WEEKLY with interval, byweekday and count 0..14, and rrulesets of them; "
@@ -118,6 +119,7 @@ def correspondence(ctx):
         c11 = None
     if c11 is not None and hasattr(c11, "history_correspondence"):
         c11.history_correspondence(ctx, rng, ctx.budget(300, 1500))
+    corr_replace(ctx, rng)
 
 
 def oracle(ctx):
@@ -176,6 +178,8 @@ def oracle_replace(ctx, rng):
             del kw["freq"]
         if not kw:
             kw["count"] = rng.randint(0, 9)
+        if ("byweekday" in kw or "byweekday" in p) and kw.get("interval", p["interval"]) % 7 == 0:
+            kw["interval"] = 2
         cache = rng.random() < 0.5
         r = rrlib.make_rule(p, cache)
         if rng.random() < 0.5:
@@ -198,6 +202,81 @@ def oracle_replace(ctx, rng):
             ctx.violation("replace(%r) of rrule(%r) differs from the rule built with the merged arguments" % (kw, p),
                           {"kind": "replace", "params": {k: str(v) for k, v in p.items()}, "kw": {k: str(v) for k, v in kw.items()}},
                           {"impl": got, "merged": want})
+
+
+# ---------------------------------------------------------------- replace(): argument-level correspondence
+
+BYK = ["bysetpos", "bymonth", "bymonthday", "byyearday", "byeaster", "byweekno", "byweekday", "byhour", "byminute", "bysecond"]
+
+
+def recorded_wire(r, kind):
+    """the recorded arguments of a real rule (scalar attributes + _original_rule) as the 17 tokens of rrule.* ops"""
+    import vlib
+    o = r._original_rule
+
+    def ol(k):
+        v = o.get(k)
+        if v is None:
+            return "-"
+        if k == "byweekday":
+            return vlib.ilist([x for w in v for x in (w.weekday, w.n or 0)])
+        return vlib.ilist(list(v))
+    d = r._dtstart
+    u = r._until
+    return [str(r._freq), str(r._interval), str(r._wkst), vlib.oint(r._count),
+            "-" if u is None else vlib.ilist([u.year, u.month, u.day, u.hour, u.minute, u.second, u.microsecond]),
+            vlib.ilist([d.year, d.month, d.day, d.hour, d.minute, d.second, d.microsecond]), "0"] + [ol(k) for k in BYK]
+
+
+def corr_replace(ctx, rng):
+    """r.replace(**kw) on real rules vs construct(recorded arguments (+) kw) in the model"""
+    import warnings
+    import props.c01 as c01
+    reqs, exp = [], []
+    tries = 0
+    while len(reqs) < ctx.budget(300, 3000) and tries < 20000:
+        tries += 1
+        c = c01.gen_case(rng)
+        c2 = c01.gen_case(rng)
+        if c["kind"] not in ("naive", "date") or c.get("until") is not None and c.get("until_isdate"):
+            continue
+        try:
+            with warnings.catch_warnings():
+                warnings.simplefilter("ignore")
+                r = c01.build(c)
+        except Exception:
+            continue
+        keys = rng.sample(["freq", "interval", "wkst", "count"] + BYK, rng.randint(0, 3))
+        kw2 = c01.kwargs_of(c2)
+        kw_py, kwt = {}, ["_"] * 17
+        w2 = c01.wire(c2).split()
+        pos = {"freq": 0, "interval": 1, "wkst": 2, "count": 3}
+        pos.update({k: 7 + i for i, k in enumerate(BYK)})
+        for k in keys:
+            if k == "freq":
+                kw_py["freq"] = c2["freq"]
+            elif k in kw2:
+                kw_py[k] = kw2[k]
+            else:
+                kw_py[k] = None
+            kwt[pos[k]] = w2[pos[k]]
+        if "count" in kw_py and kw_py["count"] is not None and r._until is not None:
+            continue                                    # count+until: deprecation warning path, not part of the claim
+        try:
+            with warnings.catch_warnings():
+                warnings.simplefilter("ignore")
+                out = "ok " + c01.impl_rule_dump(r.replace(**kw_py))
+        except Exception as ex:
+            out = "err " + type(ex).__name__
+        reqs.append("query.replace %s %s" % (" ".join(recorded_wire(r, c["kind"])), " ".join(kwt)))
+        exp.append(out)
+        ctx.count("replace_keys_%d" % len(keys))
+    got = ctx.driver(reqs)
+    for q, e, g in zip(reqs, exp, got):
+        if e != g:
+            ctx.mismatch("query.replace", {"request": q}, e, g)
+    ctx.traces += len(reqs)
+    ctx.count("corr_replace_cases", len(reqs))
 
 
 KNOWN = {}
